@@ -12,8 +12,8 @@ def correspond(ctx):
                          "compound, roots lists with None holes, allow_empty_group on/off, both routes; emitted program of the real "
                          "division_connected / _division_connected vs the Lean model (constraint multiset)"
                          " + a handful of deterministic medium / LARGE instances per family (graphs.big_graphs: 40, 70 and 258..319 vertices -- vertex ids beyond CPython's small-int cache, more than 32 / 64 vertices --, boards up to 16x17); about half of the Graph objects are observed part-way through construction (accessors read, every graph constraint posted once on a throw-away Solver) before the remaining edges are added")
-    graphcorr.run_cases(ctx, graphcorr.case_divconn, ctx.n(400, 5000), "divconn", bigs=graphcorr.graph_bigs() + graphcorr.grid_bigs())
-    graphcorr.run_cases(ctx, graphcorr.case_divconn_prim, ctx.n(200, 2500), "divconn_prim", bigs=graphcorr.graph_bigs("large"))
+    graphcorr.run_cases(ctx, graphcorr.case_divconn, ctx.n(400, 5000), "divconn", bigs=graphcorr.graph_bigs() + graphcorr.grid_bigs() + graphcorr.medium_bigs("rotate") + graphcorr.medium_grid_bigs())
+    graphcorr.run_cases(ctx, graphcorr.case_divconn_prim, ctx.n(200, 2500), "divconn_prim", bigs=graphcorr.graph_bigs("large") + graphcorr.medium_bigs())
     if not ctx.quick():
         for f in search(ctx, None, budget=30):
             ctx.disagree("semantic", what=f.what, data=f.data)
